@@ -260,7 +260,27 @@ def kitty_unit(method, mode, override=None):
         eng.methods[("KittyImage", "_get_render_data")] = get_render_data
         eng.methods[("KittyImage", "_close_image")] = lambda e, s, recv, a, k: [(None, s)]
         # PIL: len(img.tobytes()) = w * h * len(mode)
-        eng.methods[("PIL.Image", "tobytes")] = lambda e, s, recv, a, k: [(Rec("bytes", {"base": "raw", "lo": z3.IntVal(0), "hi": RAWLEN}), s)]
+        def tobytes(e, s, recv, a, k):
+            # PIL: len(img.tobytes()) = w * h * len(mode) - of the image it is called on (a converted copy has its own mode)
+            m_ = s.H(recv).get("mode", mode)
+            n_ = width * height * len(m_) if isinstance(m_, str) else RAWLEN
+            return [(Rec("bytes", {"base": "raw" if m_ == mode else f"raw-converted-to-{m_}", "lo": z3.IntVal(0), "hi": n_}), s)]
+        eng.methods[("PIL.Image", "tobytes")] = tobytes
+
+        def getextrema(e, s, recv, a, k):
+            n = e.sym_int("band_extrema")
+            bands = []
+            for i in range(len(s.H(recv).get("mode", mode))):
+                lo, hi = z3.Int(f"{n}_lo{i}"), z3.Int(f"{n}_hi{i}")
+                s.pc += [lo >= 0, lo <= hi, hi <= 255]
+                bands.append((lo, hi))
+            return [(tuple(bands), s)]
+        eng.methods[("PIL.Image", "getextrema")] = getextrema
+
+        def convert(e, s, recv, a, k):
+            s = e.fork(s)
+            return [(s.new("PIL.Image", {"mode": a[0], "size": s.H(recv).get("size"), "converted_from": recv.id}), s)]
+        eng.methods[("PIL.Image", "convert")] = convert
         cd_fields = dataclass_fields(ctx, KITTY, "ControlData")
         cd_defaults = class_literals(ctx, KITTY, "ControlData")
         post_init = inline(ctx.fn(KITTY, "ControlData.__post_init__"), eng)
